@@ -1853,6 +1853,42 @@ func (e *Engine) next(st *State, fr *Frame, x *ssa.Next) {
 	// commit visit when ok
 	st.storeLeaf(fmt.Sprintf("%s/%d", visKey, len(vidx)), vidx, Or(visited, ok))
 	st.storeLeaf(cntKey, []*Term{itv.t()}, Ite(ok, Add(cnt, BVConst(1, 64)), cnt))
+	// Completeness of a finished iteration: when the iterator is exhausted, every key that is (still) in the map has
+	// been produced. (Go leaves open whether keys inserted during the iteration are produced; no loop in this code
+	// base inserts into the map it ranges over - assumption recorded in the evidence.)
+	{
+		ss := leafSorts(mt.Key())
+		bl := make([]*Term, len(ss))
+		for i, srt := range ss {
+			nm := "rk"
+			if len(ss) > 1 {
+				nm = fmt.Sprintf("rk_%d", i)
+			}
+			bl[i] = BoundCanon(nm, 9, srt)
+		}
+		kb := Val{mt.Key(), bl}
+		func() {
+			defer func() {
+				if r := recover(); r != nil {
+					if _, isPE := r.(pathEnd); isPE {
+						panic(r)
+					}
+					// key types whose canonical leaves cannot be built over bound variables: no completeness fact
+				}
+			}()
+			bidx := mapIdx(m.t(), e.keyLeaves(st, kb))
+			bvidx := append([]*Term{itv.t()}, bidx[1:]...)
+			hasB := st.loadLeaf(root+"|has", bidx, BoolSort)
+			visB := st.loadLeaf(fmt.Sprintf("%s/%d", visKey, len(bvidx)), bvidx, BoolSort)
+			body := Implies(hasB, visB)
+			q := Forall(bl, body)
+			if q.Op == OForall {
+				quantInfo[q] = &qInfo{Vars: []qVar{{"rk", mt.Key(), bl}}, Body: body}
+				st.assume(Implies(Not(ok), q))
+				st.note("range over map: an exhausted iterator has produced every key still in the map (no insertion into the iterated map during the loop)")
+			}
+		}()
+	}
 	tp := x.Type().(*types.Tuple)
 	L := []*Term{ok}
 	if !isInvalid(tp.At(1).Type()) {
